@@ -115,9 +115,10 @@ class Explorer:
             self.cds = [ClockDomain("sync")]
             m.domains.sync = self.cds[0]
         else:
-            self.cds = [ClockDomain("write"), ClockDomain("read")]
-            m.domains.write = self.cds[0]
-            m.domains.read = self.cds[1]
+            wn, rn = getattr(self.make, "domains", None) or ("write", "read")
+            self.cds = [ClockDomain(wn), ClockDomain(rn)]
+            setattr(m.domains, wn, self.cds[0])
+            setattr(m.domains, rn, self.cds[1])
         self.sim = Simulator(m)
         self.sigs, self.mems = state_holders(self.sim)
         self.io, self.levels = find_fifo_signals(fifo)
@@ -336,7 +337,7 @@ class Explorer:
         return len(picks), (bad[0] if bad else None)
 
 
-def random_walk(make, width, sync, buffered, nevents, rng, out_stats, drain_bound=None, schedule=None):
+def random_walk(make, width, sync, buffered, nevents, rng, out_stats, drain_bound=None, schedule=None, reset_rate=0.0):
     """Long random walk with uniquely tagged entries (tag carried beside the data in the monitor)."""
     ex = Explorer(make, width, sync, buffered, 0).build()
     mon = QueueMonitor(ex.depth, buffered, sync)
@@ -370,6 +371,22 @@ def random_walk(make, width, sync, buffered, nevents, rng, out_stats, drain_boun
                     else:
                         tot = ratio[0] + ratio[1]
                         ev = 1 if rng.random() * tot < ratio[0] else 2
+                if sync and reset_rate and rng.random() < reset_rate:
+                    # the domain's reset held over one clock edge with both strobes low: the queue is empty again
+                    ctx.set(ex.incat, 0)
+                    ctx.set(ex.cds[0].rst, 1)
+                    ctx.set(ex.clkcat, 1)
+                    ctx.set(ex.clkcat, 0)
+                    ctx.set(ex.cds[0].rst, 0)
+                    q, wait = (), 0
+                    trace.append(["reset"])
+                    out_stats["resets"] = out_stats.get("resets", 0) + 1
+                    try:
+                        mon.check_outputs(q, ex.observe(ctx))
+                    except Viol as v:
+                        v.detail["when"] = "right after a reset"
+                        raise
+                    continue
                 w_en = int(rng.random() < pw)
                 r_en = int(rng.random() < pr)
                 w_data = seq & mask
